@@ -1707,6 +1707,28 @@ fn plan_fee_auth(w: &World, actor: &mut Actor, _l: &Ledger) -> Vec<(Tx, String)>
     let rng = &mut actor.rng.clone();
     let pi = &w.pools[rng.idx(w.pools.len())];
     let mut flow = Vec::new();
+    if pi.adaptive && rng.chance(1, 3) {
+        // the fee authority changes some of the pool's adaptive-fee constants between other users' swaps
+        // (often only the accumulator maximum or the control factor, leaving the group size alone)
+        let (_, c) = crate::gen2::pick_adaptive_constants(rng, pi.keys.tick_spacing, 0);
+        let style = rng.below(4);
+        let o16 = |rng: &mut Rng, v: u16, on: bool| if on && rng.chance(2, 3) { Some(v) } else { None };
+        let small_max = *rng.pick(&[0u32, 1, 10_000, 50_000]);
+        let i = ix::mk(
+            whirlpool::accounts::SetAdaptiveFeeConstants { whirlpool: pi.keys.whirlpool, whirlpools_config: w.config, oracle: pi.keys.oracle, fee_authority: actor.wallet },
+            whirlpool::instruction::SetAdaptiveFeeConstants {
+                filter_period: o16(rng, c.filter_period, style == 0),
+                decay_period: o16(rng, c.decay_period, style == 0),
+                reduction_factor: o16(rng, c.reduction_factor, style <= 1),
+                adaptive_fee_control_factor: if style != 2 && rng.chance(1, 2) { Some(c.adaptive_fee_control_factor) } else { None },
+                max_volatility_accumulator: if style >= 2 || rng.chance(1, 2) { Some(if style == 3 { small_max } else { c.max_volatility_accumulator }) } else { None },
+                tick_group_size: o16(rng, c.tick_group_size, style == 0),
+                major_swap_threshold_ticks: o16(rng, c.major_swap_threshold_ticks, style <= 1),
+            },
+        );
+        actor.rng = rng.clone();
+        return vec![(tx1(i), "set_adaptive_fee_constants".to_string())];
+    }
     if rng.chance(1, 2) {
         let r = *rng.pick(&[0u16, 1, 100, 3000, 10000, 59999, 60000, 60001, 65535]);
         flow.push((
